@@ -119,6 +119,24 @@ def run(tier):
     rows, crashed = vlib.run_hz_jobs(hz, "workflow", sj, nproc=8)
     if crashed:
         run.violation({"kind": "crash-single"}, {"job": crashed[0]["first_missing"], "stderr": crashed[0]["stderr"][-1000:]})
+    # the same on a platform whose int has 32 bits (GOARCH=386 build of the driver): the larger requests and a few small ones
+    try:
+        hz386 = vlib.go_build(goarch="386")
+        ok386 = vlib.can_run_386(hz386)
+    except vlib.InfraError:
+        ok386 = False
+    run.extra["int32_platform_pass"] = bool(ok386)
+    if ok386:
+        sub = []
+        for j in sj:
+            if j["id"] not in healthy and (j["numByte"] >= 40000 or j["numByte"] in (16, 40, 1280, 4096)) and j["numByte"] <= 1100000:
+                jid += 1
+                sub.append(dict(j, id=jid, tag=j["tag"] + " GOARCH=386"))
+        r3, c3 = vlib.run_hz_jobs(hz386, "workflow", sub, nproc=4)
+        if c3:
+            run.violation({"kind": "crash-single", "arch": "386"}, {"job": c3[0]["first_missing"], "stderr": c3[0]["stderr"][-1000:]})
+        rows.update(r3)
+        sj += sub
     events = [single_trace_event(j, rows[j["id"]], mustreject=j["id"] not in healthy) for j in sj if rows.get(j["id"])]
     acc, rej, gen = vlib.validate_trace("TraceSingle", events, timeout=3000, max_rej=4)
     run.states += acc; run.transitions += gen; run.traces += acc; run.evaluations += len(events)
